@@ -264,8 +264,13 @@ func c16RunPPPoE(c *sim.Ctx) {
 		// let the goroutine the PADR handler starts (LCP Configure-Request) finish
 		c.S.Sleep(time.Millisecond)
 	}
+	keys := map[string]bool{}
+	collided := false
 	// establishment steps; each is executable in any context
 	step := func(p *c16pPeer, k string) {
+		if collided {
+			return
+		}
 		switch k {
 		case "padi":
 			deliver(p, "padi", true, c16PPPoE(pppoe.CodePADI, 0, append(c16Tag(pppoe.TagServiceName, nil), c16Tag(pppoe.TagHostUniq, []byte{byte(p.idx), 1})...)))
@@ -275,6 +280,13 @@ func c16RunPPPoE(c *sim.Ctx) {
 			}
 			deliver(p, "padr", true, c16PPPoE(pppoe.CodePADR, 0, append(c16Tag(pppoe.TagServiceName, []byte("internet")), c16Tag(pppoe.TagACCookie, p.cookie)...)))
 			if s := tab.GetSession(p.sid); p.sid != 0 && s != nil {
+				// session identities come from crypto/rand, i.e. from the tape; a
+				// zeroed (shrunk) tape would give every session the same one
+				if keys[s.SessionID] {
+					collided = true
+					return
+				}
+				keys[s.SessionID] = true
 				p.key = s.SessionID
 				p.stage = 1
 			}
@@ -393,7 +405,7 @@ func c16RunPPPoE(c *sim.Ctx) {
 
 	for i, op := range cs.Ops {
 		c.OpIdx = i
-		if c.Failed() {
+		if c.Failed() || collided {
 			break
 		}
 		pi := int(op.Arg(0))
@@ -455,7 +467,10 @@ func c16RunPPPoE(c *sim.Ctx) {
 			auditStep(p, p.ended)
 		}
 	}
-	if c.Failed() {
+	if c.Failed() || collided {
+		if collided {
+			c.S.Probe("session-identity-collision")
+		}
 		return
 	}
 	// ---- final audit: drain probe ---------------------------------------------
@@ -471,6 +486,10 @@ func c16RunPPPoE(c *sim.Ctx) {
 		f := newPeer(50+i, net.HardwareAddr{0x02, 0xcc, 0, 0, 1, byte(i + 1)})
 		for _, k := range []string{"padi", "padr", "lcp", "pap"} {
 			step(f, k)
+		}
+		if collided {
+			c.S.Probe("session-identity-collision")
+			return
 		}
 		if f.stage != 3 {
 			continue
